@@ -77,6 +77,10 @@ MembershipRef == Applies => \A i \in DOMAIN T.qgroups :
                    CASE g.ref = "" -> TRUE
                      [] g.ref = "dayafter" -> \/ QMember(g) <=> (After.status = "active" /\ g.cday > g.qday)
                                               \/ QMember(g) <=> (After.status = "active" /\ g.cdaybase > g.qday)
+                     \* a location field is queried by the name of the location it holds at its own level (lname, "" = none)
+                     [] g.ref = "locname"  -> QMember(g) <=> (After.status = "active" /\ g.lname = g.arg)
+                     [] g.ref = "locset"   -> QMember(g) <=> (After.status = "active" /\ g.lname # "")
+                     [] g.ref = "locunset" -> QMember(g) <=> (After.status = "active" /\ g.lname = "")
                      [] OTHER -> QMember(g) <=> (After.status = "active" /\ RefMatch(g))
 \* a contact that BECOMES non-active leaves all its static groups (becomes: by what the engine did - a contact the host
 \* hands in with a resume is taken as it is, so the comparison starts from the last contact_refreshed of the sprint)
